@@ -375,7 +375,18 @@ fn judge(
         }
         Focus::C11 => {
             if !v.script.is_empty() {
-                out.count("invalid_scripts_seen_owned_by_C02");
+                // positions of Equal / Replace and the consuming side of Delete / Insert are
+                // "both indices of every op" too; other validity failures stay with C02
+                let mut claimed = false;
+                for (code, msg) in &v.script {
+                    if code.ends_with("_position") {
+                        claimed = true;
+                        out.violation(code, format!("{} | {} | ops={}", msg, c(), fmt_ops(ops)));
+                    }
+                }
+                if !claimed {
+                    out.count("invalid_scripts_seen_owned_by_C02");
+                }
             } else if !v.carried.is_empty() {
                 // attribution: is this exactly the listed known finding (KF1)?
                 let mut is_kf1 = false;
